@@ -1,5 +1,5 @@
 (* C17: conservation / bound theorems for model/Resample.v (subsample, downsample, subsets).
-   Axiom-free: no Reals here. *)
+   No axioms are used: no Reals here. *)
 From Coq Require Import List Arith Bool Lia Permutation Sorting.Sorted.
 From PV Require Import model.Resample.
 Import ListNotations.
@@ -511,3 +511,327 @@ Print Assumptions subsets_Subseq.
 Print Assumptions Subseq_subsets.
 Print Assumptions inclusion_count.
 Print Assumptions inclusion_identity.
+
+(* ------------------------------------------------------------------ *)
+(* PART 4 (C17 builder): the executable spec predicates are the Prop specs *)
+(* ------------------------------------------------------------------ *)
+
+(* what C17 says about the value (category, count) list returned by subsample(counts, n) *)
+Definition subsample_Spec (counts : list nat) (n : nat) (r : list (nat * nat)) : Prop :=
+  StronglySorted lt (map fst r) /\
+  Forall (fun p => 0 < snd p) r /\
+  list_sum (map snd r) = n /\
+  Forall (fun p => snd p <= nth (fst p) counts 0) r /\
+  Forall (fun p => fst p < length counts) r.
+
+Lemma sorted_ltb_Sorted l : sorted_ltb l = true <-> Sorted lt l.
+Proof.
+  induction l as [|a r IH].
+  - simpl. split; auto.
+  - destruct r as [|b r'].
+    + simpl. split; auto.
+    + change (sorted_ltb (a :: b :: r')) with (Nat.ltb a b && sorted_ltb (b :: r')).
+      rewrite andb_true_iff, Nat.ltb_lt, IH. split.
+      * intros [Hab Hs]. constructor; [exact Hs|constructor; exact Hab].
+      * intros Hs. inversion Hs as [|? ? Hs' Hhd]; subst. inversion Hhd; subst. split; assumption.
+Qed.
+
+Lemma sorted_ltb_iff l : sorted_ltb l = true <-> StronglySorted lt l.
+Proof.
+  rewrite sorted_ltb_Sorted. split.
+  - apply Sorted_StronglySorted. intros x y z. apply Nat.lt_trans.
+  - apply StronglySorted_Sorted.
+Qed.
+
+Theorem subsample_okb_iff counts n r : subsample_okb counts n r = true <-> subsample_Spec counts n r.
+Proof.
+  unfold subsample_okb, subsample_Spec.
+  rewrite !andb_true_iff, sorted_ltb_iff, forallb_forall, Nat.eqb_eq.
+  split.
+  - intros [[Hs Hf] Hn]. repeat split; try assumption;
+      apply Forall_forall; intros p Hp; specialize (Hf p Hp);
+      rewrite !andb_true_iff, !Nat.ltb_lt, Nat.leb_le in Hf; tauto.
+  - intros [Hs [Hp [Hn [Hle Hlt]]]]. rewrite Forall_forall in Hp, Hle, Hlt.
+    repeat split; try assumption.
+    intros p Hin. rewrite !andb_true_iff, !Nat.ltb_lt, Nat.leb_le. auto.
+Qed.
+
+Lemma nodupb_iff l : nodupb l = true <-> NoDup l.
+Proof.
+  induction l as [|a r IH]; simpl.
+  - split; [constructor|reflexivity].
+  - rewrite andb_true_iff, negb_true_iff, IH. split.
+    + intros [Hn Hd]. constructor; [|exact Hd]. intros Hin.
+      assert (E : existsb (Nat.eqb a) r = true) by (apply existsb_exists; exists a; split; [exact Hin|apply Nat.eqb_refl]).
+      congruence.
+    + intros H. inversion H as [|? ? Hn Hd]; subst. split; [|exact Hd].
+      destruct (existsb (Nat.eqb a) r) eqn:E; [|reflexivity].
+      apply existsb_exists in E. destruct E as [x [Hx Hax]]. apply Nat.eqb_eq in Hax. subst x. contradiction.
+Qed.
+
+Theorem valid_drawb_iff N n S :
+  valid_drawb N n S = true <-> NoDup S /\ (forall t, In t S -> t < N) /\ length S = n.
+Proof.
+  unfold valid_drawb. rewrite !andb_true_iff, nodupb_iff, forallb_forall, Nat.eqb_eq.
+  split.
+  - intros [[H1 H2] H3]. repeat split; try assumption. intros t Ht. apply Nat.ltb_lt. auto.
+  - intros [H1 [H2 H3]]. repeat split; try assumption. intros t Ht. apply Nat.ltb_lt. auto.
+Qed.
+
+(* the model's output meets the executable spec for EVERY valid draw *)
+Corollary subsample_model_ok counts n S :
+  valid_drawb (list_sum counts) n S = true -> subsample_okb counts n (subsample counts S) = true.
+Proof.
+  intros H. apply valid_drawb_iff in H. destruct H as [Hnd [Hlt Hlen]].
+  apply subsample_okb_iff. subst n. apply (subsample_spec counts S Hnd Hlt).
+Qed.
+
+Section SubMultiP.
+Context {X : Type}.
+Variable eqd : forall a b : X, {a = b} + {a <> b}.
+
+Lemma remove_one_perm (a : X) (l : list X) : In a l -> Permutation l (a :: remove_one eqd a l).
+Proof.
+  induction l as [|b r IH]; simpl; [contradiction|].
+  intros H. destruct (eqd a b) as [E|NE].
+  - subst b. apply Permutation_refl.
+  - destruct H as [H|H]; [congruence|].
+    eapply Permutation_trans; [apply perm_skip, IH, H|apply perm_swap].
+Qed.
+
+Theorem submultib_iff (r xs : list X) :
+  submultib eqd r xs = true <-> exists rest, Permutation xs (r ++ rest).
+Proof.
+  revert xs. induction r as [|a r IH]; intros xs; simpl.
+  - split; [intros _; exists xs; apply Permutation_refl|reflexivity].
+  - destruct (in_dec eqd a xs) as [Hin|Hnin].
+    + rewrite IH. split.
+      * intros [rest Hp]. exists rest.
+        eapply Permutation_trans; [apply remove_one_perm, Hin|]. apply perm_skip, Hp.
+      * intros [rest Hp]. exists rest.
+        apply Permutation_cons_inv with (a := a).
+        eapply Permutation_trans; [apply Permutation_sym, remove_one_perm, Hin|exact Hp].
+    + split; [discriminate|]. intros [rest Hp]. exfalso. apply Hnin.
+      eapply Permutation_in; [apply Permutation_sym, Hp|]. left. reflexivity.
+Qed.
+
+(* what C17 says about the value returned by downsample(xs, maxseqs) *)
+Definition downsample_Spec (xs : list X) (maxseqs : option nat) (out : list X) : Prop :=
+  match maxseqs with
+  | None => out = xs
+  | Some m => (length xs <= m -> out = xs) /\
+              (m < length xs -> length out = m /\ exists rest, Permutation xs (out ++ rest))
+  end.
+
+Theorem downsample_okb_iff (xs : list X) (maxseqs : option nat) (out : list X) :
+  downsample_okb eqd xs maxseqs out = true <-> downsample_Spec xs maxseqs out.
+Proof.
+  unfold downsample_okb, downsample_Spec. destruct maxseqs as [m|].
+  - destruct (Nat.leb (length xs) m) eqn:E.
+    + apply Nat.leb_le in E. destruct (list_eq_dec eqd out xs) as [Eq|Ne].
+      * split; [|reflexivity]. intros _. split; [auto|lia].
+      * split; [discriminate|]. intros [H _]. exfalso. auto.
+    + apply Nat.leb_gt in E. rewrite andb_true_iff, Nat.eqb_eq, submultib_iff. split.
+      * intros H. split; [lia|auto].
+      * intros [_ H]. auto.
+  - destruct (list_eq_dec eqd out xs); split; auto; discriminate.
+Qed.
+
+(* the model's output meets the spec for every valid draw *)
+Corollary downsample_model_ok (d : X) (xs : list X) (maxseqs : option nat) (S : list nat) :
+  (forall m, maxseqs = Some m -> m < length xs -> valid_drawb (length xs) m S = true) ->
+  downsample_Spec xs maxseqs (downsample d xs maxseqs S).
+Proof.
+  intros HS. unfold downsample_Spec. destruct maxseqs as [m|]; [|reflexivity]. split.
+  - intros Hle. apply downsample_id. right. exists m. auto.
+  - intros Hlt. specialize (HS m eq_refl Hlt). apply valid_drawb_iff in HS. destruct HS as [Hnd [Hb Hl]].
+    apply (downsample_sub d xs (Some m) m S eq_refl Hlt Hnd Hl Hb).
+Qed.
+End SubMultiP.
+
+Print Assumptions subsample_okb_iff.
+Print Assumptions downsample_okb_iff.
+
+(* ------------------------------------------------------------------ *)
+(* PART 5 (C17 builder): completeness - every output that meets the specification is produced by the model *)
+(* ------------------------------------------------------------------ *)
+
+(* ---- the canonical draw reproduces any output that meets the specification *)
+Lemma nth_unpack_from counts : forall s i j, j < nth i counts 0 ->
+  nth (list_sum (firstn i counts) + j) (unpack_from s counts) 0 = s + i.
+Proof.
+  induction counts as [|c r IH]; intros s i j Hj.
+  - destruct i; simpl in Hj; lia.
+  - destruct i as [|i'].
+    + simpl in *. rewrite app_nth1 by (rewrite repeat_length; exact Hj).
+      assert (Hin : In (nth j (repeat s c) 0) (repeat s c)) by (apply nth_In; rewrite repeat_length; exact Hj).
+      apply repeat_spec in Hin. lia.
+    + simpl firstn. simpl list_sum. simpl unpack_from. simpl in Hj.
+      rewrite app_nth2 by (rewrite repeat_length; lia). rewrite repeat_length.
+      replace (c + list_sum (firstn i' r) + j - c) with (list_sum (firstn i' r) + j) by lia.
+      rewrite IH by exact Hj. lia.
+Qed.
+
+Lemma nth_unpack_offset counts i j : j < nth i counts 0 -> nth (offset counts i + j) (unpack counts) 0 = i.
+Proof. intros H. unfold offset, unpack. rewrite nth_unpack_from by exact H. reflexivity. Qed.
+
+Lemma offset_next counts : forall i i', i < i' -> offset counts i + nth i counts 0 <= offset counts i'.
+Proof.
+  unfold offset. induction counts as [|c r IH]; intros i i' H.
+  - destruct i, i'; simpl; lia.
+  - destruct i' as [|i'']; [lia|]. destruct i as [|i0].
+    + simpl. lia.
+    + simpl. specialize (IH i0 i''). lia.
+Qed.
+
+Lemma offset_total counts : forall i, offset counts i + nth i counts 0 <= list_sum counts.
+Proof.
+  unfold offset. induction counts as [|c r IH]; intros i.
+  - destruct i; simpl; lia.
+  - destruct i as [|i0]; simpl; [lia|]. specialize (IH i0). lia.
+Qed.
+
+Lemma map_seq_const (g : nat -> nat) (v : nat) : forall c s, (forall j, j < c -> g (s + j) = v) -> map g (seq s c) = repeat v c.
+Proof.
+  induction c as [|c IH]; intros s H; [reflexivity|]. simpl. f_equal.
+  - rewrite <- (H 0) by lia. f_equal. lia.
+  - apply IH. intros j Hj. replace (S s + j) with (s + S j) by lia. apply H. lia.
+Qed.
+
+Definition cats_of (r : list (nat * nat)) : list nat := flat_map (fun p => repeat (fst p) (snd p)) r.
+
+Lemma cats_canon counts r :
+  Forall (fun p => snd p <= nth (fst p) counts 0) r ->
+  map (fun t => nth t (unpack counts) 0) (canon_draw counts r) = cats_of r.
+Proof.
+  induction r as [|p r IH]; intros H; [reflexivity|]. inversion H as [|? ? Hp Hr]; subst.
+  unfold canon_draw, cats_of in *. simpl. rewrite map_app, IH by exact Hr. f_equal.
+  apply map_seq_const. intros j Hj. apply nth_unpack_offset. lia.
+Qed.
+
+Lemma cats_notin r i : ~ In i (map fst r) -> count_occ Nat.eq_dec (cats_of r) i = 0.
+Proof.
+  intros H. apply count_occ_not_In. intros Hin. apply H. unfold cats_of in Hin.
+  apply in_flat_map in Hin. destruct Hin as [p [Hp Hi]]. apply repeat_spec in Hi. subst i.
+  apply in_map. exact Hp.
+Qed.
+
+Lemma count_occ_repeat (a c i : nat) : count_occ Nat.eq_dec (repeat a c) i = if Nat.eq_dec a i then c else 0.
+Proof.
+  induction c as [|c IH]; simpl.
+  - destruct (Nat.eq_dec a i); reflexivity.
+  - destruct (Nat.eq_dec a i); lia.
+Qed.
+
+Lemma cats_in r : StronglySorted lt (map fst r) -> forall p, In p r -> count_occ Nat.eq_dec (cats_of r) (fst p) = snd p.
+Proof.
+  induction r as [|q r IH]; intros Hs p Hp; [contradiction|].
+  simpl in Hs. inversion Hs as [|? ? Hs' Hall]; subst.
+  change (cats_of (q :: r)) with (repeat (fst q) (snd q) ++ cats_of r).
+  rewrite count_occ_app, count_occ_repeat. rewrite Forall_forall in Hall.
+  destruct Hp as [Hp|Hp].
+  - subst q. destruct (Nat.eq_dec (fst p) (fst p)) as [_|N]; [|congruence].
+    rewrite cats_notin; [lia|]. intros Hin. specialize (Hall _ Hin). lia.
+  - assert (Hlt : fst q < fst p) by (apply Hall; apply in_map; exact Hp).
+    destruct (Nat.eq_dec (fst q) (fst p)) as [E|_]; [lia|]. rewrite IH by assumption. reflexivity.
+Qed.
+
+Lemma filter_tag_eq (f : nat -> nat) : forall L s r,
+  StronglySorted lt (map fst r) -> Forall (fun p => 0 < snd p) r ->
+  Forall (fun p => s <= fst p < s + L) r ->
+  (forall p, In p r -> f (fst p) = snd p) ->
+  (forall i, s <= i < s + L -> ~ In i (map fst r) -> f i = 0) ->
+  filter (fun p => Nat.ltb 0 (snd p)) (map (fun i => (i, f i)) (seq s L)) = r.
+Proof.
+  induction L as [|L IH]; intros s r Hs Hpos Hrng Hin Hout.
+  - destruct r as [|p r]; [reflexivity|]. inversion Hrng; subst. lia.
+  - simpl seq. simpl map. simpl filter. destruct r as [|p r].
+    + rewrite (Hout s) by (simpl; auto; lia). simpl.
+      apply (IH (S s) []); auto; try constructor. intros i Hi _. apply Hout; [lia|auto].
+    + inversion Hrng as [|? ? Hp Hr]; subst. inversion Hpos as [|? ? Hpp Hpr]; subst.
+      simpl in Hs. inversion Hs as [|? ? Hs' Hall]; subst. rewrite Forall_forall in Hall.
+      destruct (Nat.eq_dec (fst p) s) as [E|NE].
+      * subst s. rewrite (Hin p) by (left; reflexivity).
+        assert (Hb : Nat.ltb 0 (snd p) = true) by (apply Nat.ltb_lt; exact Hpp).
+        simpl snd. rewrite Hb.
+        rewrite <- surjective_pairing. f_equal.
+        apply IH; auto.
+        -- apply Forall_forall. intros q Hq. rewrite Forall_forall in Hr. specialize (Hr q Hq).
+           assert (fst p < fst q) by (apply Hall; apply in_map; exact Hq). lia.
+        -- intros q Hq. apply Hin. right. exact Hq.
+        -- intros i Hi Hni. apply Hout; [lia|]. simpl. intros [Ei|Hi']; [lia|contradiction].
+      * assert (Hns : ~ In s (map fst (p :: r))).
+        { simpl. intros [Ei|Hi]; [lia|]. specialize (Hall _ Hi). lia. }
+        rewrite (Hout s) by (auto; lia). simpl.
+        apply IH; auto.
+        -- apply Forall_forall. intros q Hq. destruct Hq as [Hq|Hq].
+           ++ subst q. lia.
+           ++ rewrite Forall_forall in Hr. specialize (Hr q Hq).
+              assert (fst p < fst q) by (apply Hall; apply in_map; exact Hq). lia.
+        -- intros i Hi Hni. apply Hout; [lia|exact Hni].
+Qed.
+
+Lemma app_sorted (l1 l2 : list nat) :
+  StronglySorted lt l1 -> StronglySorted lt l2 -> (forall a b, In a l1 -> In b l2 -> a < b) -> StronglySorted lt (l1 ++ l2).
+Proof.
+  induction l1 as [|x l1 IH]; intros H1 H2 H; [exact H2|].
+  inversion H1 as [|? ? H1' Hall]; subst. simpl. constructor.
+  - apply IH; auto. intros a b Ha Hb. apply H; [right; exact Ha|exact Hb].
+  - apply Forall_forall. intros y Hy. apply in_app_or in Hy. destruct Hy as [Hy|Hy].
+    + rewrite Forall_forall in Hall. auto.
+    + apply H; [left; reflexivity|exact Hy].
+Qed.
+
+Lemma canon_lower counts r t lo :
+  Forall (fun p => lo <= offset counts (fst p)) r -> In t (canon_draw counts r) -> lo <= t.
+Proof.
+  intros H Hin. unfold canon_draw in Hin. apply in_flat_map in Hin. destruct Hin as [p [Hp Ht]].
+  apply in_seq in Ht. rewrite Forall_forall in H. specialize (H p Hp). lia.
+Qed.
+
+Lemma canon_sorted counts r :
+  StronglySorted lt (map fst r) -> Forall (fun p => snd p <= nth (fst p) counts 0) r ->
+  StronglySorted lt (canon_draw counts r).
+Proof.
+  induction r as [|p r IH]; intros Hs Hle; [constructor|].
+  simpl in Hs. inversion Hs as [|? ? Hs' Hall]; subst. inversion Hle as [|? ? Hp Hr]; subst.
+  change (canon_draw counts (p :: r)) with (seq (offset counts (fst p)) (snd p) ++ canon_draw counts r).
+  apply app_sorted; [apply StronglySorted_seq|apply IH; assumption|].
+  intros a b Ha Hb. apply in_seq in Ha.
+  assert (Hlo : offset counts (fst p) + nth (fst p) counts 0 <= b).
+  { apply (canon_lower counts r b); [|exact Hb]. apply Forall_forall. intros q Hq.
+    apply offset_next. rewrite Forall_forall in Hall. apply Hall. apply in_map. exact Hq. }
+  lia.
+Qed.
+
+Lemma StronglySorted_lt_NoDup (l : list nat) : StronglySorted lt l -> NoDup l.
+Proof.
+  induction 1 as [|x l Hs IH Hall]; constructor; [|exact IH].
+  intros Hin. rewrite Forall_forall in Hall. specialize (Hall x Hin). lia.
+Qed.
+
+Lemma canon_length counts r : length (canon_draw counts r) = list_sum (map snd r).
+Proof.
+  induction r as [|p r IH]; [reflexivity|].
+  change (canon_draw counts (p :: r)) with (seq (offset counts (fst p)) (snd p) ++ canon_draw counts r).
+  rewrite app_length, seq_length, IH. reflexivity.
+Qed.
+
+Theorem subsample_complete counts n r :
+  subsample_Spec counts n r ->
+  let S := canon_draw counts r in
+  NoDup S /\ (forall t, In t S -> t < list_sum counts) /\ length S = n /\ subsample counts S = r.
+Proof.
+  intros [Hs [Hpos [Hsum [Hle Hlt]]]] S. subst S. repeat split.
+  - apply StronglySorted_lt_NoDup, canon_sorted; assumption.
+  - intros t Ht. unfold canon_draw in Ht. apply in_flat_map in Ht. destruct Ht as [p [Hp Ht]].
+    apply in_seq in Ht. rewrite Forall_forall in Hle. specialize (Hle p Hp).
+    pose proof (offset_total counts (fst p)). lia.
+  - rewrite canon_length. exact Hsum.
+  - unfold subsample. rewrite cats_canon by exact Hle.
+    apply filter_tag_eq; auto.
+    + apply Forall_forall. intros p Hp. rewrite Forall_forall in Hlt. specialize (Hlt p Hp). lia.
+    + intros p Hp. apply cats_in; assumption.
+    + intros i _ Hni. apply cats_notin. exact Hni.
+Qed.
+Print Assumptions subsample_complete.
